@@ -39,6 +39,7 @@ import (
 //	            logged by the receiving goroutine, so only a hint for the order of the replies)
 //	push <target> <max> <ids> | ok <ids>            nodesByDistance.push applied left to right
 //	cl ...                                          content lookup, see c10_content.go
+//	ll ...                                          live node lookup over loopback, see c10_live.go
 type c10peer struct {
 	kind  byte
 	nodes []int // -1 = nil entry
@@ -821,6 +822,8 @@ func c10replay(c *Ctx, lines []string) {
 			c10push(c, t, m, ids)
 		case "cl":
 			c10contentReplay(c, f)
+		case "ll":
+			c10liveReplay(c, f)
 		}
 	}
 }
@@ -832,6 +835,10 @@ func runC10(c *Ctx) {
 	}
 	if len(c.Args) >= 1 && c.Args[0] == "lkchild" {
 		c10lkchild(c)
+		return
+	}
+	if len(c.Args) >= 1 && c.Args[0] == "llchild" {
+		c10llchild(c, c.Args[1:])
 		return
 	}
 	if len(c.Args) >= 1 && c.Args[0] == "clchild" {
@@ -913,6 +920,7 @@ func runC10(c *Ctx) {
 		c.Emit("%s", ln)
 	}
 	c10content(c)
+	c10livelookups(c)
 }
 
 var _ = bytes.Equal
